@@ -187,6 +187,7 @@ pub fn c17(quick: bool, seed: u64) -> Outcome {
                 SetDecay(t) => SetDecay(fix(*t)),
                 SetRelease(t) => SetRelease(fix(*t)),
                 SetSustain(t) => SetSustain(fix(*t)),
+                ParamBurst { which, a, b, n } => ParamBurst { which: *which, a: fix(*a), b: fix(*b), n: *n },
                 o => o.clone(),
             }).collect(),
         }
